@@ -105,6 +105,7 @@ ChildResult run_in_child(const Plan &plan, const std::string &only_oracle, int t
     int fd = open(errfile.c_str(), O_WRONLY | O_CREAT | O_TRUNC, 0644);
     if (fd >= 0) { dup2(fd, 2); close(fd); }
     g_phase_slot = slot;
+    die_with_parent();
     arm_guard(30, timeout_s);
     Outcome o = exec_plan(plan, false, only_oracle);
     std::string line = o.to_line() + "\n";
@@ -303,6 +304,7 @@ int replay_main(const std::string &path, bool quiet) {
   if (pid == 0) {
     close(pfd[0]);
     g_phase_slot = slot;
+    die_with_parent();
     if (quiet) { int fd = open(errfile.c_str(), O_WRONLY | O_CREAT | O_TRUNC, 0644); if (fd >= 0) { dup2(fd, 2); close(fd); } }
     arm_guard(30, 900);
     Outcome o = exec_plan(p, !quiet);
@@ -344,6 +346,8 @@ static void worker_main(const Config &cfg, int k, long long first_run, int wfd, 
   int efd = open(errpath.c_str(), O_WRONLY | O_CREAT | O_TRUNC, 0644);
   if (efd >= 0) { dup2(efd, 2); close(efd); }
   g_phase_slot = &slot->phase;
+  die_with_parent();
+  setpgid(0, 0);   // own process group: the driver can remove a worker together with whatever it forked
   const bool fresh_per_run = cfg.prop == "C18";
   if (!fresh_per_run) arm_guard(30, 600);
   auto send = [&](const std::string &s) { size_t off = 0; while (off < s.size()) { ssize_t w = write(wfd, s.data() + off, s.size() - off); if (w <= 0) _exit(3); off += (size_t)w; } };
@@ -362,6 +366,7 @@ static void worker_main(const Config &cfg, int k, long long first_run, int wfd, 
         pid_t pid = fork();
         if (pid == 0) {
           close(pfd[0]);
+          die_with_parent();
           arm_guard(30, 600);
           Outcome oc = exec_plan(p, false);
           std::string l = oc.to_line() + "\nH " + g_hll_states.hex() + "\n";
@@ -480,7 +485,7 @@ int check_main(Config cfg) {
     else if (line[0] == 'Z') ws[(size_t)k].done = true;
   };
 
-  int live = W;
+  int live = W, deadline_kills = 0;
   while (live > 0) {
     std::vector<pollfd> pfds;
     std::vector<int> idx;
@@ -504,6 +509,7 @@ int check_main(Config cfg) {
           if (!w.done) {
             long long run = slots[k].run, sub = slots[k].sub; int ph = slots[k].phase;
             bool hang = (WIFSIGNALED(st) && WTERMSIG(st) == SIGKILL) || (WIFEXITED(st) && (WEXITSTATUS(st) == 99 || WEXITSTATUS(st) == 98));
+            if (WIFSIGNALED(st) && WTERMSIG(st) == SIGKILL && now_s() > deadline + 120) { stats.inc("removed_after_budget"); evaluations++; live--; continue; }
             std::string p = crash_property(ph, cfg.prop);
             std::string werr;
             try { werr = read_file(cfg.logs + "/" + cfg.prop + ".w" + std::to_string(k) + ".err"); } catch (...) {}
@@ -524,8 +530,14 @@ int check_main(Config cfg) {
       }
       if (w.fd >= 0 && !w.done && now_s() - w.last_progress > HANG_S && slots[k].run >= 0 && slots[k].phase != PH_NONE) {
         fprintf(stderr, "[check] worker %d makes no progress in run %lld, killing it\n", k, (long long)slots[k].run);
-        kill(w.pid, SIGKILL);
+        kill(-w.pid, SIGKILL); kill(w.pid, SIGKILL);
         w.last_progress = now_s();
+      }
+      // the exploration budget is over: a worker that is still inside a run two minutes later is removed
+      if (w.fd >= 0 && !w.done && now_s() > deadline + 120) {
+        fprintf(stderr, "[check] worker %d still busy with run %lld two minutes after the budget ended, removing it\n", k, (long long)slots[k].run);
+        kill(-w.pid, SIGKILL); kill(w.pid, SIGKILL);
+        deadline_kills++;
       }
     }
     live = 0;
